@@ -7,6 +7,7 @@ Environment:
   PV_TRANSCRIPT=file     append every command line and every response (NDJSON: seq, dir, text, note)
   PV_MODEL_SEED=n        diversify models: a satisfiable query is first retried with random value constraints
   PV_CORE_MODE=solver|full|minimal|superset   which legal answer get-unsat-assumptions gives
+  PV_COUNT_FILE=file     persistent counter of response-bearing commands (a run may restart the solver)
   PV_FAULT_AT=n PV_FAULT_KIND=error|unknown|empty|truncate|exit|exit_status|garbage PV_FAULT_LEN=L
                          misbehave at the n-th response-bearing command
 """
@@ -69,7 +70,14 @@ class Proxy:
         self.consts = []          # (name, width) of declared constants; width 0 = Bool
         self.scopes = [0]         # number of consts declared per open scope
         self.last_assumps = None  # text items of the last check-sat-assuming
+        # positions of response-bearing commands are counted across solver restarts within one run
+        self.count_file = os.environ.get("PV_COUNT_FILE")
         self.nresp = 0
+        if self.count_file and os.path.exists(self.count_file):
+            try:
+                self.nresp = int(open(self.count_file).read().strip() or "0")
+            except ValueError:
+                self.nresp = 0
         self.p = subprocess.Popen(BACKEND, stdin=subprocess.PIPE, stdout=subprocess.PIPE, stderr=subprocess.PIPE, text=True, bufsize=1)
 
     def log(self, d, text, note=""):
@@ -167,6 +175,9 @@ class Proxy:
                 continue
             if self.profile == "yices-smt2" and (s.startswith("(check-sat-assuming") or s.startswith("(get-unsat-assumptions")):
                 self.nresp += 1
+                if self.count_file:
+                    with open(self.count_file, "w") as cf:
+                        cf.write(str(self.nresp))
                 self.reply('(error "%s is not supported by yices-smt2")\n' % s.split()[0][1:], "profile")
                 continue
             if s.startswith("(declare-const "):
@@ -190,6 +201,9 @@ class Proxy:
                 continue
             # response-bearing command
             self.nresp += 1
+            if self.count_file:
+                with open(self.count_file, "w") as cf:
+                    cf.write(str(self.nresp))
             if self.fat == self.nresp:
                 self.send(line)
                 self.read()
